@@ -24,6 +24,9 @@ pub fn units(tier: &str, _seed: u64) -> Vec<String> {
         v.push(unit(&[("shape", s), ("n", "1")]));
     }
     v.push(unit(&[("shape", shapes[2]), ("n", "2")]));
+    // two output lines for the same system and service (they add up), and a step without any output
+    v.push(unit(&[("shape", "1/U:CAL:GASNATURAL;1/U:ACS:GASNATURAL;1/X;1/~O:CAL;1/~O:CAL;1/~O:ACS"), ("n", "1")]));
+    v.push(unit(&[("shape", shapes[6]), ("n", "2")]));
     if tier == "thorough" {
         for s in shapes {
             v.push(unit(&[("shape", s), ("n", "2"), ("ord", "rev")]));
@@ -100,14 +103,25 @@ pub fn scenario(u: &Unit) -> String {
                     }
                 }
                 let mag_tot = q.iter().fold(None::<F>, |a, x| Some(a.map(|y| y + x.1.abs_()).unwrap_or(zero + x.1.abs_())));
+                // the same per service and in total over the whole period: at a step where the system delivers
+                // nothing its auxiliary energy is shared by the annual proportions (nothing is dropped)
+                let q_at = |srv: &str, t2: usize| -> F {
+                    lines.iter().filter(|l| l.kind == 'O' && l.id.unwrap_or(0) == id && l.a == srv).fold(zero, |a, l| a + line_value(l, t2)).abs_()
+                };
+                let tot_at = |t2: usize| -> F { q.iter().fold(None::<F>, |a, x| Some(a.map(|y| y + q_at(&x.0, t2)).unwrap_or(zero + q_at(&x.0, t2)))).unwrap_or(zero) };
+                let tot_an = <F as Scalar>::sum((0..n).map(|t2| tot_at(t2)));
                 let mut structural = t();
                 for e in &got {
                     let name = format!("{:?}", e.service);
                     match (q.iter().find(|x| x.0 == name), mag_tot, e.values.get(tt)) {
                         (Some((_, qs)), Some(mt), Some(v)) => {
                             let want = (qs.abs_() / mt) * decl;
+                            let srv_an = <F as Scalar>::sum((0..n).map(|t2| q_at(&name, t2)));
+                            let want_an = (srv_an / tot_an) * decl;
                             let zero_case = mt.le_(zero);
-                            let s = zero_case.clone().and(v.ident(zero)).or(zero_case.not().and(v.ident(want)));
+                            let an_case = zero.lt_(tot_an);
+                            let s_zero = an_case.clone().and(v.ident(want_an)).or(an_case.not().and(v.ident(zero * decl)));
+                            let s = zero_case.clone().and(s_zero).or(zero_case.not().and(v.ident(want)));
                             ob(&tag(&format!("share.{}=aux*|q|/sum|q|", name)), s.clone());
                             structural = structural.and(s);
                         }
@@ -117,10 +131,10 @@ pub fn scenario(u: &Unit) -> String {
                         }
                     }
                 }
-                // the shares add up to what was declared (when some output exists at this step)
-                if let (Some(s), Some(mt)) = (sum, mag_tot) {
-                    let kk = 3.0 * got.len() as f32 + 2.0;
-                    ob_via(&tag("sum~declared"), "shares-structure", structural.and(zero.lt_(mt)).or(mt.le_(zero).and(s.ident(zero))), mt.le_(zero).or(s.approx(decl, kk, decl)));
+                // the shares add up to what was declared, at every step (also where the system delivers nothing)
+                if let (Some(s), Some(_mt)) = (sum, mag_tot) {
+                    let kk = 3.0 * got.len() as f32 + 2.0 + n as f32;
+                    ob_via(&tag("sum~declared"), "shares-structure", structural, s.approx(decl, kk, decl));
                 }
             }
         }
